@@ -389,7 +389,7 @@ func (w *world) closeClient(c int) {
 	}
 	// the peer hangs up: the proxy's read returns 0
 	unix.Shutdown(p.PeerFd, unix.SHUT_WR)
-	w.s.L.Read(p.ProxyFd)
+	w.s.L.Event(p.ProxyFd, true, false)
 	w.closedC[c] = true
 	w.record(sx.L(sx.I(4), sx.I(c)))
 }
@@ -400,7 +400,7 @@ func (w *world) closeBackend(p *stepper.Peer) {
 	}
 	a, k := w.backendName(p)
 	unix.Shutdown(p.PeerFd, unix.SHUT_WR)
-	w.s.L.Read(p.ProxyFd)
+	w.s.L.Event(p.ProxyFd, true, false)
 	w.closedS[p] = true
 	w.record(sx.L(sx.I(5), sx.S(a), sx.I(k)))
 }
